@@ -76,7 +76,8 @@ InitIssue == [roots |-> {[id |-> "r1", active |-> TRUE]}, ridx |-> 1, cfg |-> [v
 
 CmdsIssue(s) ==
   (IF s.n = 0 THEN (IF Universe = "small" THEN SignSmall ELSE SignFull) ELSE SignSmall)
-  \cup (IF s.nr < 2 THEN {[t |-> "rotate", race |-> b] : b \in BOOLEAN} ELSE {}) \cup {[t |-> "reconfig", race |-> b] : b \in BOOLEAN}
+  \cup (IF s.nr < 3 THEN {[t |-> "rotate", race |-> b, to |-> x] : b \in BOOLEAN, x \in {"fresh", "A", "B"}} ELSE {})
+  \cup {[t |-> "reconfig", race |-> b, to |-> "fresh"] : b \in BOOLEAN}
 
 \* In the model an "any" decision is resolved the way the code resolves it today: issue.
 ApplyIssue(s, c) ==
@@ -87,14 +88,22 @@ ApplyIssue(s, c) ==
         ELSE LET sn == MaxOf(s.seen) + 1 IN
              [st |-> [s1 EXCEPT !.seen = @ \cup {sn}],
               out |-> [t |-> "issued", leaf |-> [id |-> [d.id EXCEPT !.td = "own"], isca |-> FALSE, serial |-> sn, issuer |-> ActiveId(s)]]]
-    [] c.t = "rotate" /\ c.race ->               \* RacingRootWrite wins: the manager's conditional write is refused,
-        LET m == MaxOf(s.seen) IN                \* UpdateConfiguration reports an error, nothing but the roots index moved
-        [st |-> [RacingRootWrite(s1, s1.idx) EXCEPT !.seen = @ \cup {m + 1, m + 2, m + 3}, !.nr = @ + 1], out |-> [t |-> "err"]]
-    [] c.t = "rotate" ->                         \* CAManager.UpdateConfiguration with a new key: primaryUpdateRootCA
-        LET new == RootIds[Cardinality(s.roots) + 1]  m == MaxOf(s.seen) IN
-        [st |-> [s1 EXCEPT !.roots = {[r EXCEPT !.active = FALSE] : r \in s.roots} \cup {[id |-> new, active |-> TRUE]},
-                           !.ridx = s1.idx, !.cfg = [v |-> CfgNames[s.n + 2], mi |-> s1.idx], !.seen = @ \cup {m + 1, m + 2, m + 3}, !.nr = @ + 1],
-         out |-> [t |-> "ok"]]
+    [] c.t = "rotate" ->
+        \* CAManager.UpdateConfiguration -> primaryUpdateRootCA.  The target is a fresh root or an operator-supplied
+        \* one ("A", "B": same key and certificate every time, hence the same root id) that may already be in the set.
+        LET target == IF c.to = "fresh" THEN RootIds[Cardinality(s.roots) + 1] ELSE c.to
+            m == MaxOf(s.seen)
+            s2 == [s1 EXCEPT !.seen = @ \cup {m + 1, m + 2, m + 3}, !.nr = @ + 1]
+        IN
+        IF target = ActiveId(s) THEN             \* same root: configuration only (CAOpSetConfig), nothing to race with
+          [st |-> [s2 EXCEPT !.cfg = [v |-> CfgNames[s.n + 2], mi |-> s1.idx]], out |-> [t |-> "ok"]]
+        ELSE IF c.race THEN                      \* RacingRootWrite wins: the manager's conditional write is refused,
+          [st |-> RacingRootWrite(s2, s1.idx), out |-> [t |-> "err"]]   \* an error is reported, only the roots index moved
+        ELSE
+          [st |-> [s2 EXCEPT !.roots = {[id |-> r.id, active |-> FALSE] : r \in {x \in s.roots : x.id # target}}
+                                       \cup {[id |-> target, active |-> TRUE]},
+                             !.ridx = s1.idx, !.cfg = [v |-> CfgNames[s.n + 2], mi |-> s1.idx]],
+           out |-> [t |-> "ok"]]
     [] OTHER ->                                  \* reconfig: same root, CAOpSetConfig only (no roots write to race with)
         [st |-> [s1 EXCEPT !.cfg = [v |-> CfgNames[s.n + 2], mi |-> s1.idx], !.seen = @ \cup {MaxOf(s.seen) + 1}], out |-> [t |-> "ok"]]
 
@@ -161,6 +170,16 @@ IssueStepOK ==
 PropIssue == [][IssueStepOK]_vars
 
 \* a reconfiguration that reports an error leaves root set and configuration alone (RacingRootWrite)
+\* after a successful rotation exactly one stored root is active and it is the target (a former root included)
+RotateStepOK ==
+  LET c == hist'[Len(hist')] IN
+  (c.t = "rotate" /\ out'.t = "ok") =>
+     /\ Cardinality(ActiveRoots(st'.roots)) = 1
+     /\ (c.to # "fresh" => ActiveId(st') = c.to)
+     /\ {r.id : r \in st.roots} \subseteq {r.id : r \in st'.roots}
+     /\ Cardinality({r.id : r \in st'.roots}) = Cardinality(st'.roots)
+PropRotate == [][RotateStepOK]_vars
+
 ReconfStepOK == LET c == hist'[Len(hist')] IN (c.t \in {"rotate", "reconfig"} /\ out'.t = "err") => SameRootsAndConfig(st, st')
 PropReconf == [][ReconfStepOK]_vars
 
